@@ -65,6 +65,9 @@ type History struct {
 	FinalObs bool    `json:"finalobs,omitempty"`
 	ExpBases []int64 `json:"expbases,omitempty"` // segment bases the implementation-shaped model predicts
 	ExpNext  int64   `json:"expnext,omitempty"`
+	// TimeTable: if set, MsgSpec.T is an index into this table of absolute unix-microsecond values
+	// (times over the whole int64 range; the trace carries the index: an injective renaming)
+	TimeTable []int64 `json:"timetable,omitempty"`
 }
 
 // Observation profile: which sweeps the executor records after every step.
@@ -191,6 +194,14 @@ func (x *Exec) emit(ev string, m map[string]any) {
 }
 
 func (x *Exec) relT(t time.Time) int64 {
+	if x.h.TimeTable != nil {
+		for i, v := range x.h.TimeTable {
+			if v == t.UnixMicro() {
+				return int64(i)
+			}
+		}
+		return -tClamp - 1
+	}
 	r := t.UnixMicro() - x.t0
 	if r > tClamp || r < -tClamp {
 		return -tClamp - 1
@@ -244,7 +255,9 @@ func (x *Exec) build(batch []MsgSpec) []klevdb.Message {
 			v = []byte{}
 		}
 		msgs[i] = klevdb.Message{Offset: s.O, Key: k, Value: v}
-		if !s.Z {
+		if x.h.TimeTable != nil {
+			msgs[i].Time = time.UnixMicro(x.h.TimeTable[s.T]).UTC()
+		} else if !s.Z {
 			msgs[i].Time = time.UnixMicro(x.t0 + s.T).UTC()
 		}
 	}
@@ -352,6 +365,8 @@ func (x *Exec) step(op *Op) {
 		}
 		before := x.layoutIf()
 		msgs := x.build(op.Batch)
+		nsegs0, bytes0 := fsTotals(x.dir)
+		hv0 := headVersion(x.dir)
 		next, err := x.l.Publish(msgs)
 		in := make([]MM, len(msgs))
 		assigned := make([]int64, len(msgs))
@@ -368,10 +383,16 @@ func (x *Exec) step(op *Op) {
 		}
 		x.emit("publish", map[string]any{"batch": in, "next": next, "assigned": assigned, "err": errClass(err),
 			"errs": errStr(err), "j": x.obs.JudgePublish})
-		if x.obs.Size {
+		if x.obs.Size && err == nil {
+			sum := int64(0)
 			for i, m := range msgs {
-				x.emit("size", map[string]any{"msg": in[i], "size": x.l.Size(m)})
+				sz := x.l.Size(m)
+				sum += sz
+				x.emit("size", map[string]any{"msg": in[i], "size": sz})
 			}
+			// Size(m) = the bytes a message adds to a segment (same format version, no rollover)
+			nsegs1, bytes1 := fsTotals(x.dir)
+			x.emit("grow", map[string]any{"delta": bytes1 - bytes0, "sum": sum, "rolled": nsegs1 != nsegs0, "samever": hv0 == effVer(x.cur)})
 		}
 		if x.obs.Layout && !x.cur.RO {
 			x.emitVersions("publish", before, 0)
@@ -432,6 +453,11 @@ func (x *Exec) step(op *Op) {
 			return
 		}
 		x.backup(op)
+	case "synth":
+		if x.l != nil {
+			return
+		}
+		x.synth(op)
 	case "ixprobe":
 		if x.l != nil {
 			return
